@@ -1723,7 +1723,21 @@ def default_builtins():
             raise Unsupported("round of symbolic")
         return round(x, nd) if nd is not None else round(x)
 
-    return {"len": b_len, "abs": b_abs, "max": b_max, "min": b_min, "range": b_range, "list": b_list, "set": b_set,
+    def b_enumerate(x, start=0):
+        if hasattr(x, "_at"):
+            from .symcoll import SymEnumerate
+
+            return SymEnumerate(x, start)
+        return enumerate(x, start)
+
+    def b_zip(*xs):
+        if any(hasattr(x, "_at") for x in xs):
+            from .symcoll import SymZip
+
+            return SymZip(*xs)
+        return zip(*xs)
+
+    return {"enumerate": b_enumerate, "zip": b_zip, "len": b_len, "abs": b_abs, "max": b_max, "min": b_min, "range": b_range, "list": b_list, "set": b_set,
             "sorted": b_sorted, "int": b_int, "float": b_float, "all": b_all, "any": b_any, "sum": b_sum,
             "filter": b_filter, "round": b_round, "True": True, "False": False, "None": None,
             "setattr": None, "NotImplemented": NotImplemented}
